@@ -107,6 +107,9 @@ func (e *Executor) setupFuzzyModel() {
 		words = append(words, name)
 		words = slices.Concat(words, task.Aliases)
 	}
+	// Training stores every way of deleting up to two characters from a word:
+	// memory grows with the cube of its length. Leave overlong words out.
+	words = slices.DeleteFunc(words, func(word string) bool { return len(word) > fuzzyMaxWordLen })
 
 	model.Train(words)
 	e.fuzzyModel = model
@@ -115,6 +118,13 @@ func (e *Executor) setupFuzzyModel() {
 		e.fuzzyModelMaxLen = max(e.fuzzyModelMaxLen, len(word))
 	}
 }
+
+// fuzzyMaxWordLen is the longest task name or alias the "did you mean" model
+// is trained on. A word of n characters costs about n³/2 bytes (a name of
+// 1000 characters more than a gigabyte, a few thousand characters end in an
+// out-of-memory crash before any task runs); at 100 characters that is half
+// a megabyte. Longer names are simply never suggested.
+const fuzzyMaxWordLen = 100
 
 func (e *Executor) setupTempDir() error {
 	if e.TempDir != (TempDir{}) {
